@@ -45,3 +45,6 @@ Definition references_defined : Prop :=                                         
   forall c l env, (forall it, In it l -> True) -> refs_defined env (emit_module c l) = true.
 (* (references_defined is stated without the obvious side condition "the source defines or imports what it uses":
    the refutation Properties.references_defined_refuted uses a source that does.) *)
+
+(* positive versions proved under decidable guards: Properties.definitions_unique_guarded (no_redefinition_guard; overload
+   chains excepted) and Properties.references_defined_guarded (refs_guard). *)
